@@ -105,6 +105,20 @@ func fixedScenarios(f lib.Flags) []Scenario {
 				Subs:    []SubSpec{{Kind: "pullid", ID: "x", BP: bp, UpdatesOnly: uo, Consume: "none", Cancel: "end"}}})
 		}
 	}
+	// collections with an id interceptor; subscriber and writers spell the ids differently (respell alternates
+	// canonical / non-canonical spellings): every single-item shape above, and the plain Pull shapes
+	n0 := len(res)
+	for _, icpt := range icptNames {
+		for _, sc := range res[:n0] {
+			if sc.Res != "collection" || len(sc.Subs) == 0 {
+				continue
+			}
+			pullid := sc.Subs[0].Kind == "pullid"
+			if pullid || (sc.Class == "one-drain" || sc.Class == "stop-then-cancel") && !sc.Subs[0].UpdatesOnly {
+				res = append(res, respell(sc, icpt, nil))
+			}
+		}
+	}
 	return res
 }
 
@@ -145,8 +159,12 @@ func pointScenarios(f lib.Flags, points map[string]int) []Scenario {
 						initial = []string{"x"}
 						subs = append(subs, SubSpec{Kind: "pullid", ID: "x", BP: variant.bp, Consume: "drain", Cancel: "point", Point: p, Occ: occ + 1, LingerUs: variant.linger})
 					}
-					res = append(res, Scenario{Mode: "stress", Class: "cancel-at/" + p, Res: r, Initial: initial,
-						Subs: subs, Writers: ws, BoundMs: boundMs(f)})
+					sc := Scenario{Mode: "stress", Class: "cancel-at/" + p, Res: r, Initial: initial,
+						Subs: subs, Writers: ws, BoundMs: boundMs(f)}
+					if (occ+vi)%3 == 0 {
+						sc = respell(sc, icptNames[(occ/3+vi)%len(icptNames)], nil)
+					}
+					res = append(res, sc)
 				}
 			}
 		}
@@ -236,6 +254,9 @@ func randomScenarios(f lib.Flags) []Scenario {
 		if r.Intn(4) == 0 {
 			sc.LingerAt = []string{"listener.stop.closed", "listener.send.locked", "listener.stop.enter", "bus.listen.beforeRegister"}[r.Intn(4)]
 			sc.LingerUs = 100 + r.Intn(300)
+		}
+		if sc.Res == "collection" && r.Intn(3) == 0 {
+			sc = respell(sc, icptNames[r.Intn(len(icptNames))], r)
 		}
 		res = append(res, sc)
 	}
